@@ -8,6 +8,8 @@ import Proofs.Audit
 import Generated.Operators
 import Model.Expr
 import Proofs.Lazy
+import Model.AuditSession
+import Proofs.AuditSession
 
 open Audit
 
@@ -306,6 +308,211 @@ theorem data_valid_accepted (f : FrameInfo) (hr : f.rows ≠ 0)
   have hr' : (f.rows == 0) = false := by simpa using hr
   simp [dataAuditNew, dataAuditBio, hfa, hr']
 
+/-! ### round 3 — the ROW that holds a data-dependent fault (model: `Audit.logitDataFaults`, after
+`LogLogit.audit` and `Database.check_availability_of_chosen_alt`) -/
+
+/-- **A choice that is no alternative is refused whichever row holds it** — first, middle, last or
+only row — with availability conditions or without (`av = None`: `avKeys = alts`), keys of the two
+dictionaries consistent or not. -/
+theorem choice_row_refused (L : LogitData) (i : Nat) (c : Int)
+    (hc : L.choices[i]? = some c) (hn : L.alts.contains c = false) : logitDataFaults L ≠ [] :=
+  logitDataFaults_ne_nil L i c hc hn
+
+/-- The audit's dedicated test (`np.argwhere(...).any()`) alone does NOT see a fault that sits in row
+0 only (witness); the refusal of that case rests on the lookup of the chosen alternative among the
+availabilities, which the model therefore contains. -/
+theorem dedicated_test_misses_first_row :
+    argwhereAny (incorrectRows [1, 2] 0 [-1, 1, 2]) = false ∧
+    logitDataFaults { alts := [1, 2], avKeys := [1, 2], choices := [-1, 1, 2] } = [.logitChoice] := by
+  decide
+
+/-- **No false alarm from the rows**: consistent keys and every choice an alternative — nothing is
+reported (an unavailable chosen alternative is a warning, not an error). -/
+theorem choice_rows_sound (L : LogitData) (hk : keysConsistent L = true)
+    (h : ∀ c ∈ L.choices, L.alts.contains c = true) : logitDataFaults L = [] :=
+  logitDataFaults_nil L hk h
+
+/-- … and the logit that reads such a row may sit **anywhere in the formula**: both entry paths
+refuse (ids in order or not). -/
+theorem choice_row_refused_anywhere (d : ADag) (hwf : WF d) (db : Db) (root v : Nat) (n : ANode)
+    (L : LogitData) (hp : Path d (fun _ => True) root v) (hv : d[v]? = some (L.flags n))
+    (hk : n.kind = .logLogit) (i : Nat) (c : Int) (hc : L.choices[i]? = some c)
+    (hn : L.alts.contains c = false) :
+    stagedExpr d db root ≠ [] ∧ stagedBio d db root false ≠ [] := by
+  have hloc : localFaults d db v (L.flags n) = logitDataFaults L := by
+    simp only [localFaults, LogitData.flags, hk, logitDataFaults]
+    cases keysConsistent L <;> rfl
+  have hne := logitDataFaults_ne_nil L i c hc hn
+  obtain ⟨x, hx⟩ := List.exists_mem_of_ne_nil _ hne
+  have h1 : x ∈ audit d db (root + 1) root :=
+    audit_path d hwf db root v hp x (local_in_audit d db v _ hv x (by rw [hloc]; exact hx))
+  have he : topAuditExpr d db root ≠ [] := by
+    apply List.ne_nil_of_mem (a := x)
+    simp only [topAuditExpr, List.mem_append]; exact Or.inl (Or.inl (Or.inl h1))
+  have hb : topAuditBio d db root ≠ [] := by
+    apply List.ne_nil_of_mem (a := x)
+    simp only [topAuditBio, List.mem_append]; exact Or.inr h1
+  exact ⟨firstNonEmpty_ne_nil _ _ (by simp) he, firstNonEmpty_ne_nil _ _ (by simp) hb⟩
+
+/-- `LogLogit.get_value` (evaluation without data): a chosen alternative that is no key of the
+utilities is refused. -/
+theorem get_value_choice_refused (L : LogitData) (c : Int) (hn : L.alts.contains c = false) :
+    getValueRefuses L c = true := by
+  unfold getValueRefuses
+  rw [hn]; rfl
+
+/-! ### round 3 — nests that overlap or leave the choice set (model: `Audit.nestAudit`, after
+`Nests.__init__` and `NestsForNestedLogit.check_intersection / check_partition`) -/
+
+/-- **Two nests that share an alternative are refused wherever they sit in the tuple of nests**
+(adjacent or not), and so is an alternative outside the choice set. -/
+theorem nests_refused (choiceSet : List Int) (nests : List (List Int)) :
+    (∀ i j a, i < nests.length → j < nests.length → i ≠ j → a ∈ nests.getD i [] →
+      a ∈ nests.getD j [] → nestAudit choiceSet nests ≠ .accepted) ∧
+    (∀ a, a ∈ nests.flatten → a ∉ choiceSet → nestAudit choiceSet nests = .outsideChoiceSet) := by
+  constructor
+  · intro i j a hi hj hij hai haj
+    have := nestsOverlap_of_common nests i j hi hj hij a hai haj
+    unfold nestAudit
+    split
+    · simp
+    · simp [this]
+  · intro a ha hn
+    have : nestsOutside choiceSet nests ≠ [] := by
+      apply List.ne_nil_of_mem (a := a)
+      unfold nestsOutside
+      rw [List.mem_filter]
+      exact ⟨ha, by simpa using hn⟩
+    simp [nestAudit, this]
+
+/-- **Disjoint nests inside the choice set are never refused.** -/
+theorem nests_sound (choiceSet : List Int) (nests : List (List Int))
+    (hin : ∀ a ∈ nests.flatten, a ∈ choiceSet)
+    (hdis : ∀ i j, i < nests.length → j < nests.length → i ≠ j →
+      ∀ a ∈ nests.getD i [], a ∉ nests.getD j []) :
+    nestAudit choiceSet nests = .accepted := by
+  have h1 : nestsOutside choiceSet nests = [] := by
+    unfold nestsOutside
+    rw [List.filter_eq_nil_iff]
+    intro a ha
+    simpa using hin a ha
+  simp [nestAudit, h1, nestsOverlap_false nests hdis]
+
+/-! ### round 3 — histories on the same objects (model: `Audit.run`, a state machine over
+`SOp`: evaluations through either entry path, data edited in place, `database.panel()`, another
+member of the catalog selected, columns dropped / added) -/
+
+/-- **An evaluation leaves nothing behind**: the objects after a history are those after its edits. -/
+theorem evaluations_leave_no_trace (ops : List SOp) (s : SState) :
+    final ops s = final (edits ops) s :=
+  (final_edits ops s).symm
+
+/-- **A later evaluation is judged like a first one.**  After any history `ops` (earlier evaluations,
+accepted or refused, interleaved with edits) the verdict of an evaluation is the verdict the same
+evaluation gets as the FIRST evaluation after the edits alone: the staged checks of its entry path on
+the current formula and the current data. -/
+theorem reevaluation_like_first (ops : List SOp) (s : SState) (e : SOp) (he : e.isEval = true) :
+    (run (ops ++ [e]) s).getLast? = (final (edits ops) s).verdict e ∧
+    run (edits ops ++ [e]) s = ((final (edits ops) s).verdict e).toList := by
+  obtain ⟨v, hv, hr⟩ := run_single_eval (final ops s) e he
+  constructor
+  · rw [run_append, hr, final_edits, hv]
+    simp
+  · rw [run_append, run_edits, final_edits, hr, hv]
+    simp
+
+/-- in particular: **once the specification has become invalid, the next evaluation on the same
+objects is refused**, whatever was evaluated before … -/
+theorem reevaluation_refused (ops : List SOp) (s : SState)
+    (hbad : stagedExpr (final ops s).dag (final ops s).db (final ops s).root ≠ []) :
+    ∃ v, (run (ops ++ [.evalExpr]) s).getLast? = some v ∧ v ≠ [] := by
+  refine ⟨_, ?_, hbad⟩
+  rw [run_append]
+  simp [run, SState.verdict]
+
+/-- … and **once it has become valid it is accepted**, whatever was refused before. -/
+theorem reevaluation_accepted (ops : List SOp) (s : SState)
+    (hok : stagedExpr (final ops s).dag (final ops s).db (final ops s).root = []) :
+    (run (ops ++ [.evalExpr]) s).getLast? = some [] := by
+  rw [run_append]
+  simp [run, SState.verdict, hok]
+
+/-- **Histories × positions**: after any history, whatever check fails at ANY node of the current
+formula (current selection of the catalog, current columns, current panel declaration, current
+rows) is reported by the next evaluation on the same objects, on both entry paths. -/
+theorem current_fault_refused (ops : List SOp) (s t : SState) (ht : t = final ops s) (hwf : WF t.dag)
+    (k : Nat) (n : ANode) (x : Fault) (hp : Path t.dag (fun _ => True) t.root k)
+    (hk : t.dag[k]? = some n) (hx : x ∈ localFaults t.dag t.db k n) :
+    (∃ w, (run (ops ++ [.evalExpr]) s).getLast? = some w ∧ w ≠ []) ∧
+    (∃ w, (run (ops ++ [.evalBio false]) s).getLast? = some w ∧ w ≠ []) := by
+  have h1 : x ∈ audit t.dag t.db (t.root + 1) t.root :=
+    audit_path t.dag hwf t.db t.root k hp _ (local_in_audit t.dag t.db k n hk _ hx)
+  have he : topAuditExpr t.dag t.db t.root ≠ [] := by
+    apply List.ne_nil_of_mem (a := x)
+    simp only [topAuditExpr, List.mem_append]; exact Or.inl (Or.inl (Or.inl h1))
+  have hb : topAuditBio t.dag t.db t.root ≠ [] := by
+    apply List.ne_nil_of_mem (a := x)
+    simp only [topAuditBio, List.mem_append]; exact Or.inr h1
+  constructor
+  · apply reevaluation_refused
+    rw [← ht]
+    exact firstNonEmpty_ne_nil _ _ (by simp) he
+  · refine ⟨stagedBio t.dag t.db t.root false, ?_, firstNonEmpty_ne_nil _ _ (by simp) hb⟩
+    rw [run_append, ← ht]
+    simp [run, SState.verdict]
+
+/-- **`database.panel()` declared at any point of a history**: from then on a MonteCarlo operator
+without trajectory operator below it, wherever it sits in the selected formula, is refused at the
+next evaluation — however many evaluations on flat data were accepted before. -/
+theorem declared_panel_mc_refused (pre post : List SOp) (s t : SState)
+    (ht : t = final (pre ++ [.declarePanel] ++ post) s)
+    (c : Spec) (hsel : t.configs[t.sel]? = some c) (hno : t.logit = none) (hwf : WF c.dag)
+    (k : Nat) (n : ANode) (hp : Path c.dag (fun _ => True) c.root k) (hk : c.dag[k]? = some n)
+    (hkind : n.kind = .monteCarlo) (hnt : n.children.any (embeds c.dag .panelTraj k) = false) :
+    ∃ w, (run (pre ++ [.declarePanel] ++ post ++ [.evalExpr]) s).getLast? = some w ∧ w ≠ [] := by
+  have hpanel : t.panel = true := by
+    rw [ht, final_append]
+    apply panel_stays
+    rw [final_append]
+    simp [final, SState.apply]
+  have hdag : t.dag = c.dag := by simp [SState.dag, hsel, hno]
+  have hroot : t.root = c.root := by
+    simp only [SState.root, List.getD_eq_getElem?_getD, hsel, Option.getD_some]
+  have hx : Fault.mcPanelNoTraj ∈ localFaults t.dag t.db k n := by
+    rw [hdag]
+    simp [localFaults, hkind, SState.db, hpanel, hnt]
+  exact (current_fault_refused _ s t ht (by rw [hdag]; exact hwf) k n _ (by rw [hdag, hroot]; exact hp)
+    (by rw [hdag]; exact hk) hx).1
+
+/-- **A choice edited in place to a value that is no alternative is refused at the next evaluation**,
+whatever the history before the edit, whichever row is edited, wherever the logit sits in the
+selected formula. -/
+theorem edited_choice_refused (ops : List SOp) (s : SState) (row : Nat) (v : Int)
+    (t : SState) (ht : t = final (ops ++ [.setChoice row v]) s)
+    (c : Spec) (hsel : t.configs[t.sel]? = some c) (hwf : WF c.dag)
+    (L : LogitData) (hL : t.logit = some L)
+    (hv : L.alts.contains v = false) (hcell : L.choices[row]? = some v)
+    (k : Nat) (n : ANode) (hp : Path t.dag (fun _ => True) c.root k) (hk : c.dag[k]? = some n)
+    (hkind : n.kind = .logLogit) :
+    ∃ w, (run (ops ++ [.setChoice row v, .evalExpr]) s).getLast? = some w ∧ w ≠ [] := by
+  have hdag : t.dag = c.dag.map fun n => if n.kind == .logLogit then L.flags n else n := by
+    simp [SState.dag, hsel, hL]
+  have hroot : t.root = c.root := by
+    simp only [SState.root, List.getD_eq_getElem?_getD, hsel, Option.getD_some]
+  have hwf' : WF t.dag := by
+    rw [hdag]
+    apply wf_map_flags _ _ _ hwf
+    intro m; split <;> rfl
+  have hnode : t.dag[k]? = some (L.flags n) := by
+    rw [hdag, List.getElem?_map, hk]
+    simp [hkind]
+  have hbad := (choice_row_refused_anywhere t.dag hwf' t.db c.root k n L hp hnode hkind row v hcell hv).1
+  have e : ops ++ [SOp.setChoice row v, SOp.evalExpr] = (ops ++ [SOp.setChoice row v]) ++ [SOp.evalExpr] := by simp
+  rw [e]
+  apply reevaluation_refused
+  rw [← ht, hroot]
+  exact hbad
+
 /-! ### non-vacuity -/
 
 /-- exp(b * Variable("zzz")) > 0 with `zzz` unknown, under MonteCarlo-free operators -/
@@ -331,5 +538,54 @@ def exDup : ADag :=
 example : prepareFaults exDup { cols := ["x"], panel := false } 3 = [.duplicateName "s"] := by decide
 example : dataAuditBio { cols := [{ name := "x", numeric := true, hasNaN := true }], rows := 3 } = [.nan] := by decide
 example : dataAuditNew { cols := [{ name := "x", numeric := true, hasNaN := false }], rows := 3 } = [] := by decide
+
+/-- the faulty row first / in the middle / last / alone; without availability conditions -/
+example : logitDataFaults { alts := [10, 20, 30], avKeys := [10, 20, 30], choices := [0, 10, 20] } ≠ [] :=
+  choice_row_refused _ 0 0 rfl (by decide)
+example : logitDataFaults { alts := [10, 20, 30], avKeys := [10, 20, 30], choices := [10, -1, 20] } ≠ [] :=
+  choice_row_refused _ 1 (-1) rfl (by decide)
+example : logitDataFaults { alts := [10, 20, 30], avKeys := [10, 20, 30], choices := [10, 20, 99] } ≠ [] :=
+  choice_row_refused _ 2 99 rfl (by decide)
+example : logitDataFaults { alts := [10, 20, 30], avKeys := [10, 20, 30], choices := [0] } = [.logitChoice] := by decide
+example : logitDataFaults { alts := [10, 20, 30], avKeys := [30, 20, 10], choices := [10, 30, 20] } = [] :=
+  choice_rows_sound _ (by decide) (by decide)
+/-- nests 1 and 3 of three overlap -/
+example : nestAudit [1, 2, 3, 4, 5] [[1, 2], [3, 4], [5, 1]] = .overlap := by decide
+example : nestAudit [1, 2, 3, 4, 5] [[1, 2], [3, 4], [5]] = .accepted :=
+  nests_sound _ _ (by decide) (by
+    intro i j hi hj hij
+    rcases i with _ | _ | _ | i <;> rcases j with _ | _ | _ | j <;>
+      first | (exfalso; exact hij rfl) | (exfalso; simp at hi; omega) | (exfalso; simp at hj; omega) | decide)
+example : nestAudit [1, 2, 3, 4] [[1, 2], [3, 9]] = .outsideChoiceSet := by decide
+
+/-- exp(loglogit({1: b*x, 2: 0}, None, choice)): the formula of the session examples -/
+def exLogit : ADag :=
+  [ { kind := .var, name := "choice" }, { kind := .beta, name := "b" }, { kind := .var, name := "x" },
+    { kind := .op, children := [1, 2] }, { kind := .leaf }, { kind := .leaf }, { kind := .leaf },
+    { kind := .logLogit, children := [0, 3, 4, 5, 6] }, { kind := .op, children := [7] } ]
+def exState : SState :=
+  { configs := [{ dag := exLogit, root := 8 }], sel := 0, cols := ["x", "choice", "ID"], panel := false,
+    logit := some { alts := [1, 2], avKeys := [1, 2], choices := [1, 2, 1, 2, 2] } }
+/-- evaluated, then the choice of the FIRST row is set to 3 in place, evaluated again: accepted, refused;
+a valid edit afterwards: accepted again -/
+example : run [.evalExpr, .setChoice 0 3, .evalExpr, .evalBio false, .setChoice 0 2, .evalExpr] exState
+    = [[], [.logitChoice], [.logitChoice], []] := by decide
+/-- MonteCarlo(exp(catalog)) with members b*x + draws | b*x; flat data, then declared panel -/
+def exMc (withDraws : Bool) : Spec :=
+  { dag := [ { kind := .beta, name := "b" }, { kind := .var, name := "x" }, { kind := .op, children := [0, 1] },
+             (if withDraws then { kind := .draws, name := "xi" } else { kind := .leaf }),
+             { kind := .op, children := [2, 3] }, { kind := .catalog, children := [4] },
+             { kind := .op, children := [5] }, { kind := .monteCarlo, children := [6] } ], root := 7 }
+def exMcState : SState :=
+  { configs := [exMc true, exMc false], sel := 0, cols := ["x", "ID"], panel := false, logit := none }
+example : run [.evalExpr, .select 1, .evalExpr, .select 0, .evalExpr, .declarePanel, .evalExpr, .dropColumn "x", .evalExpr]
+    exMcState = [[], [.mcNoDraws], [], [.mcPanelNoTraj], [.unknownColumn "x"]] := by decide
+/-- hypotheses of `declared_panel_mc_refused` / `current_fault_refused` are satisfiable: the formula of
+`exMcState` after [evaluation, panel(), evaluation] -/
+example : ∃ w, (run ([.evalExpr] ++ [.declarePanel] ++ [.evalExpr] ++ [.evalExpr]) exMcState).getLast? = some w ∧ w ≠ [] :=
+  declared_panel_mc_refused [.evalExpr] [.evalExpr] exMcState _ rfl (exMc true) rfl rfl (by
+      intro k n hk c hc
+      rcases k with _ | _ | _ | _ | _ | _ | _ | _ | k <;> simp [exMc] at hk <;> subst hk <;> simp at hc <;> omega) 7
+    _ (Path.refl _) rfl rfl (by decide)
 
 end C12
